@@ -642,13 +642,18 @@ async fn settle() {
 
 impl Runner {
     async fn new(rng: &mut Rng, npeers: usize, retries: u8, capacity: usize) -> Runner {
+        Self::new_with(rng, npeers, retries, capacity, None).await
+    }
+
+    async fn new_with(rng: &mut Rng, npeers: usize, retries: u8, capacity: usize, session_timeout: Option<Duration>) -> Runner {
         let w = World::new(rng, npeers, retries);
         let listen = ListenConfig::Ipv4 { ip: Ipv4Addr::new(10, 1, 0, 1), port: 9000 };
-        let config = ConfigBuilder::new(listen)
-            .request_timeout(Duration::from_millis(TIMEOUT_MS))
-            .request_retries(retries)
-            .session_cache_capacity(capacity)
-            .build();
+        let mut cb = ConfigBuilder::new(listen);
+        cb.request_timeout(Duration::from_millis(TIMEOUT_MS)).request_retries(retries).session_cache_capacity(capacity);
+        if let Some(t) = session_timeout {
+            cb.session_timeout(t);
+        }
+        let config = cb.build();
         let vh = VirtualHandler::spawn(
             Arc::new(RwLock::new(w.local_enr.clone())),
             Arc::new(RwLock::new(CombinedKey::secp256k1_from_bytes(&mut w.local_key.encode()).unwrap())),
@@ -1552,6 +1557,68 @@ async fn run_case(seed: u64, idx: u64, focus: &str, thorough: bool, fixes: &str)
     CaseOut { coq, failures: r.w.failures.clone(), steps: r.steps.len(), nontrivial: established, canon: h, hist: r.w.hist.clone(), moves }
 }
 
+/// C15 at handler level (monitor only; the handler model has no expiry): a session idle for longer
+/// than the session timeout must not be used again - the next request goes out as a random packet
+/// (fresh handshake) and an encrypted message from the peer is answered with a who-are-you request.
+/// The cache reads the real clock, so these cases sleep in real time.
+async fn run_c15_case(seed: u64, idx: u64) -> (Vec<(String, String)>, Vec<String>, bool) {
+    let mut rng = crate::kb::case_rng(seed ^ 0x63313563, idx);
+    let ttl_ms = 120u64;
+    let mut r = Runner::new_with(&mut rng, 2, 1, 1000, Some(Duration::from_millis(ttl_ms))).await;
+    let mut script = vec![];
+    // establish: the peer sends a random packet, we challenge, the peer completes the handshake
+    r.net_random(&mut rng, 0).await;
+    r.app_answer_wru(0, 1).await;
+    r.net_handshake(&mut rng, 0, HsVariant::Honest).await;
+    let established = r.steps.iter().any(|s| s.outs.iter().any(|o| matches!(o, AOut::Established(..))));
+    script.push(format!("establish session with peer 0: {}", established));
+    // optional traffic before the timeout (refreshes the session), in either direction
+    let refresh = rng.below(3);
+    let idle_short = rng.chance(1, 3);
+    std::thread::sleep(Duration::from_millis(60));
+    match refresh {
+        1 => r.app_request(&mut rng, 0, true, 0).await,
+        2 => r.net_request(&mut rng, 0, false).await,
+        _ => {}
+    }
+    script.push(format!("after 60 ms: refresh kind {}", refresh));
+    // idle: shorter or longer than the timeout, measured from the last use
+    let idle = if idle_short { 40 } else { ttl_ms + 60 };
+    std::thread::sleep(Duration::from_millis(idle));
+    script.push(format!("idle {} ms (timeout {} ms)", idle + if refresh == 0 { 60 } else { 0 }, ttl_ms));
+    let expect_expired = if refresh == 0 { 60 + idle > ttl_ms + 20 } else { idle > ttl_ms + 20 };
+    let expect_alive = if refresh == 0 { 60 + idle + 20 < ttl_ms } else { idle + 20 < ttl_ms };
+    let n0 = r.steps.len();
+    let outbound = rng.chance(1, 2);
+    if outbound {
+        r.app_request(&mut rng, 0, true, 0).await;
+        let used_session = r.steps[n0..].iter().any(|s| s.wires.iter().any(|(_, p)| matches!(p, APkt::Msg { ct: ACt::Enc(..), .. })));
+        let random_packet = r.steps[n0..].iter().any(|s| s.wires.iter().any(|(_, p)| matches!(p, APkt::Msg { ct: ACt::Junk(..), .. })));
+        script.push(format!("request to the peer: encrypted with the session = {}, random packet = {}", used_session, random_packet));
+        if expect_expired && used_session {
+            r.w.failures.push(("C15".into(), "a session idle for longer than the session timeout was used to encrypt a request".into()));
+        }
+        if expect_alive && !used_session {
+            r.w.failures.push(("C15".into(), "a session used within the timeout was not used for the next request".into()));
+        }
+    } else {
+        r.net_request(&mut rng, 0, false).await;
+        let delivered = r.steps[n0..].iter().any(|s| s.outs.iter().any(|o| matches!(o, AOut::Request(..))));
+        let wru = r.steps[n0..].iter().any(|s| s.outs.iter().any(|o| matches!(o, AOut::WhoAreYou(..))));
+        script.push(format!("encrypted request from the peer: delivered = {}, who-are-you = {}", delivered, wru));
+        if expect_expired && delivered {
+            r.w.failures.push(("C15".into(), "a session idle for longer than the session timeout was used to accept a message".into()));
+        }
+        if expect_alive && !delivered {
+            r.w.failures.push(("C15".into(), "a session used within the timeout did not accept a message".into()));
+        }
+    }
+    r.vh.shutdown();
+    // only C15 verdicts count here: the other monitors' ledgers are not maintained across real sleeps
+    let f: Vec<(String, String)> = r.w.failures.iter().filter(|(p, _)| p == "C15").cloned().collect();
+    (f, script, expect_expired)
+}
+
 /// `harness hnd --focus c01|c02|c03|c04|c13|c19 --fixes d1,d2a,d2b,d6|all|none --seed S --cases N --out DIR [--only I]`
 pub fn main(args: &[String]) {
     let o = parse_opts(args);
@@ -1585,6 +1652,36 @@ pub fn main(args: &[String]) {
         Some(x) => vec![x],
         None => (0..o.cases).collect(),
     };
+    if focus == "c15" {
+        let mut n_expired = 0u64;
+        for idx in range {
+            let rt = tokio::runtime::Builder::new_current_thread().enable_all().start_paused(true).build().unwrap();
+            let (fails, script, expired) = rt.block_on(run_c15_case(o.seed, idx));
+            drop(rt);
+            sum.evaluations += 1;
+            if expired {
+                n_expired += 1;
+            }
+            sum.hist.add(if expired { "c15:idle_longer_than_timeout" } else { "c15:idle_shorter_or_ambiguous" });
+            if sum.samples.len() < 3 {
+                sum.samples.push(J::obj(vec![("case", J::I(idx as i64)), ("script", J::A(script.iter().map(|x| J::s(x.clone())).collect()))]));
+            }
+            for (prop, desc) in fails {
+                let sig = format!("{}:{}", prop, desc);
+                if seen_sig.insert(sig.clone()) || only.is_some() {
+                    let file = o.out.join(format!("failure_{}_{}.json", prop, idx));
+                    let j = J::obj(vec![("component", J::s("hnd")), ("focus", J::s("c15")), ("property", J::s(prop.clone())), ("seed", J::I(o.seed as i64)), ("case", J::I(idx as i64)), ("what", J::s(desc.clone())), ("script", J::A(script.iter().map(|x| J::s(x.clone())).collect()))]);
+                    std::fs::write(&file, j.render()).unwrap();
+                    sum.monitor_failures.push((sig, desc, file.to_string_lossy().to_string()));
+                }
+            }
+        }
+        sum.distinct_nontrivial = n_expired.min(sum.evaluations);
+        sum.rule = "handler-level session expiry on the real clock: establish a session (session timeout 120 ms), optional refreshing traffic in either direction, idle shorter or longer than the timeout, then a request to the peer or an encrypted request from it; non-trivial = the idle period exceeded the timeout".into();
+        sum.write(&o.out);
+        println!("hnd/c15: {} cases, {} with an expired session, {} monitor failure signatures", sum.evaluations, n_expired, sum.monitor_failures.len());
+        return;
+    }
     for idx in range {
         let rt = tokio::runtime::Builder::new_current_thread().enable_all().start_paused(true).build().unwrap();
         let c = rt.block_on(run_case(o.seed, idx, &focus, o.thorough, &fixes));
